@@ -436,6 +436,53 @@ def int64_mises(row):
     return (math.sqrt(r) if r >= 0 else math.nan), wrapped[0]
 
 
+# ------------------------------------------------------------------ result dtype (precision of the input is kept)
+# Functions whose result has the floating dtype of the components (as before commit 176ec02): float32 stays float32.  The
+# Tresca family accumulates in `np.zeros(...)` and the abs-max sign is `sgn + int array`, i.e. float64 whatever the input:
+# tresca, signed_tresca_*, signed_mises_abs_max_principal are recorded, not judged.
+KEEPS_DTYPE = ["mises", "signed_mises_trace", "abs_max_principal", "max_principal", "min_principal", "principals"]
+WIDENS = ["tresca", "signed_tresca_trace", "signed_tresca_abs_max_principal", "signed_mises_abs_max_principal"]
+LONGDOUBLE_FUNCS = ["mises", "signed_mises_trace"]      # the others go through LAPACK, which has no extended precision
+HAS_LONGDOUBLE = np.finfo(np.longdouble).eps < np.finfo(np.float64).eps
+
+
+def _dtype_names(x):
+    """dtype name(s) of a result: ndarray / numpy scalar / Series -> [name]; DataFrame -> the names of its columns"""
+    if isinstance(x, pd.DataFrame):
+        return sorted({str(np.dtype(t)) for t in x.dtypes})
+    return [str(np.asarray(x).dtype)] if not hasattr(x, "dtype") else [str(np.dtype(x.dtype))]
+
+
+def result_dtypes(rows, dtype, index_kind, colorder, funcs):
+    """-> [(path, function, [result dtype names])] of the plain functions with ndarray / Series arguments and of the accessor,
+    for components of `dtype`"""
+    E = eqs()
+    a = np.asarray(rows, dtype=float).reshape(-1, 6).astype(dtype)
+    cols = [a[:, i].copy() for i in range(6)]
+    idx = make_index(index_kind, len(a))
+    ser = [pd.Series(c, index=idx) for c in cols]
+    data = {}
+    for c in colorder:
+        data[c] = cols[COLS.index(c)] if c in COLS else [EXTRA_VALUES[c]] * len(a)
+    df = pd.DataFrame(data, index=idx, columns=list(colorder))
+    out = []
+    for f in funcs:
+        out.append(("ndarray arguments", f, _dtype_names(getattr(E, f)(*cols))))
+        out.append(("pandas Series arguments", f, _dtype_names(getattr(E, f)(*ser))))
+        out.append(("accessor df.equistress", f, _dtype_names(getattr(df.equistress, f)())))
+    return out
+
+
+def longdouble_mises(rows):
+    """mises of longdouble components through the real code, and the harness's own extended-precision evaluation"""
+    a = np.asarray(rows, dtype=float).reshape(-1, 6).astype(np.longdouble)
+    a = a * (1 + np.longdouble(2) ** -60)      # not representable in double: a detour through float64 shows
+    got = np.asarray(eqs().mises(*[a[:, i].copy() for i in range(6)]))
+    ref = np.sqrt(((a[:, 0] - a[:, 1]) ** 2 + (a[:, 1] - a[:, 2]) ** 2 + (a[:, 2] - a[:, 0]) ** 2) / 2
+                  + 3 * (a[:, 3] ** 2 + a[:, 4] ** 2 + a[:, 5] ** 2))
+    return a, got, ref
+
+
 # ------------------------------------------------------------------ large batches (vectorised)
 BIG_KINDS = [k for k in KINDS if k not in ("extreme_magnitude", "big_integer")]
 
@@ -543,6 +590,12 @@ class C17(Prop):
         "Voigt columns.  2-D component arrays (n,m) with m > 1 are outside the quantifier (`scalar or column input`): there "
         "`principals` returns the batch axes transposed, (m,n,3) - observed, not judged.  float32 frames are evaluated by numpy in "
         "single precision: compared with 2e-5 x magnitude, for 1e-12 <= max|s_ij| <= 1e12 only",
+        "result dtype (requested by the review of fix 176ec02; the property text is silent on it): the result keeps the floating "
+        "dtype of the components - float32 -> float32, float64 -> float64, longdouble -> longdouble with extended-precision values "
+        "(mises, signed_mises_trace) - for mises, signed_mises_trace, abs_max / max / min_principal and principals, on the ndarray, "
+        "Series and accessor path; int64 components give float64 from every function.  tresca, signed_tresca_* (np.zeros accumulator) "
+        "and signed_mises_abs_max_principal (sign + integer array) return float64 for float32 input as well, before and after 176ec02: "
+        "recorded (distribution.result_dtypes), not judged.  Class result-dtype",
         "a frame that lacks one of the six Voigt columns is not a stress tensor: whether the accessor refuses it is not part of "
         "the property (counted in distribution.reduced_frame, no verdict); names of returned Series / columns likewise (distribution.notes)",
         "model `mises` is the repaired sum-of-squares formula (/repo commit a83078d); over the reals it equals the expanded "
@@ -583,7 +636,7 @@ class C17(Prop):
                       "trace_sign_decided_by_rounding": 0,
                       "sign_comparisons": {"compared": 0, "magnitude_only_trace": 0, "magnitude_only_abs_max": 0},
                       "magnitude_log10": {}, "reduced_frame": {}, "notes": {}, "big_batches": {}, "big_rows": 0,
-                      "max_batch_rows": 0, "input_forms": {}}
+                      "max_batch_rows": 0, "input_forms": {}, "result_dtypes": {}}
 
     # -------------------------------------------------------------- generation
     def generate(self, rng, tier):
@@ -761,6 +814,21 @@ class C17(Prop):
                 rows32 = [[float(np.float32(x)) for x in r] for r in sel]
                 _pw, pv = call_with([np.array([r[i] for r in sel], dtype=np.float32) for i in range(6)], len(sel))
                 out["f32"] = (rows32, w, v, pv)
+        # result dtypes for float32 / float64 / longdouble / int64 components on the ndarray, Series and accessor path
+        out["dtypes"] = None
+        if case.get("frames", True):
+            sel = [r for r in allrows if 1e-12 <= scale_of(r) <= 1e12][:3] or [[1.0, 2.0, 3.0, 0.5, 0.25, 0.125]]
+            ints_ = [[float(round(x)) for x in r] for r in sel if scale_of(r) < 1e6] or [[1.0, 2.0, 3.0, 0.0, 1.0, 0.0]]
+            co = case.get("colorder") or CANONICAL
+            dt = [("float32", "float32", result_dtypes(sel, np.float32, case["index"], co, KEEPS_DTYPE + WIDENS)),
+                  ("float64", "float64", result_dtypes(sel, np.float64, case["index"], co, KEEPS_DTYPE + WIDENS)),
+                  ("int64", "float64", result_dtypes(ints_, np.int64, case["index"], co, FUNCS + ["principals"]))]
+            ld = None
+            if HAS_LONGDOUBLE:
+                dt.append(("longdouble", str(np.dtype(np.longdouble)),
+                           result_dtypes(sel, np.longdouble, case["index"], co, LONGDOUBLE_FUNCS)))
+                ld = longdouble_mises(sel)
+            out["dtypes"] = (dt, ld)
 
     # ---- large batches
     @staticmethod
@@ -1059,6 +1127,35 @@ class C17(Prop):
                             f"same tensor {tuple(row)}", "float32-frame-wrong")
         return None
 
+    # ---- the result keeps the precision of the components
+    def _dtype_clause(self, ev):
+        if not ev.get("dtypes"):
+            return None
+        dt, ld = ev["dtypes"]
+        for given, expect, results in dt:
+            for path, f, names in results:
+                self._bump("result_dtypes", f"{given}->{'/'.join(names)}:{f}")
+                if f in WIDENS and given != "int64":
+                    continue                # float64 for every input (np.zeros accumulator / int sign array): recorded only
+                if names != [expect]:
+                    desc = (f"{f} of {given} components returns {'/'.join(names)} ({path}); expected {expect}: "
+                            + ("integer components are evaluated in double precision" if given == "int64" else
+                               "the result keeps the floating-point type of the components (single precision FE results stay "
+                               "single precision, extended precision is not rounded to double)"))
+                    if not self.known("result-dtype", desc):
+                        return (desc, "result-dtype")
+        if ld is not None:
+            a, got, ref = ld
+            tol = 16 * float(np.finfo(np.longdouble).eps) * np.abs(a).max(axis=1)
+            bad = ~(np.abs(got.astype(np.longdouble) - ref) <= tol)
+            if bad.any():
+                j = int(np.argmax(bad))
+                desc = (f"mises of longdouble components {tuple(str(x) for x in a[j])} = {got[j]!r}, extended precision evaluation "
+                        f"gives {ref[j]!r}: the components were rounded to double on the way")
+                if not self.known("result-dtype", desc):
+                    return (desc, "result-dtype")
+        return None
+
     def _oracle_small(self, case, ev):
         st = self.stats
         n = ev["n"]
@@ -1099,7 +1196,7 @@ class C17(Prop):
                             f"inside the full frame: {ev['accessor'][i][1][k]!r}", "batch-dependent")
 
         # (a') integer valued arguments / columns, float32 frames
-        res = self._integer_clause(ev) or self._float32_clause(ev)
+        res = self._integer_clause(ev) or self._float32_clause(ev) or self._dtype_clause(ev)
         if res is not None:
             return res
 
